@@ -109,12 +109,31 @@ func iRun(h iHistory, dir string) (viol []iViolation) {
 		go func() { done <- svc.DoListen(ctx, to) }()
 	}
 	started := time.Now()
+	// (the result of the serving call is taken from the channel once and remembered)
+	var final error
+	finished := false
 	returned := func() (error, bool) {
+		if finished {
+			return final, true
+		}
 		select {
 		case err := <-done:
+			final, finished = err, true
 			return err, true
 		default:
 			return nil, false
+		}
+	}
+	waitDone := func(d time.Duration) bool {
+		if finished {
+			return true
+		}
+		select {
+		case err := <-done:
+			final, finished = err, true
+			return true
+		case <-time.After(d):
+			return false
 		}
 	}
 	isTimeout := func(err error) bool {
@@ -124,14 +143,13 @@ func iRun(h iHistory, dir string) (viol []iViolation) {
 	// awaitStop: the service, visited by nobody from now on, stops by itself
 	awaitStop := func(what string) {
 		t0 := time.Now()
-		select {
-		case err := <-done:
-			if !isTimeout(err) {
-				fail("timeout", "stopped-with-another-error", "%s: the serving call returned %v instead of the timeout error", what, err)
+		if waitDone(20 * time.Second) {
+			if !isTimeout(final) {
+				fail("timeout", "stopped-with-another-error", "%s: the serving call returned %v instead of the timeout error", what, final)
 			} else if time.Since(t0) > 5*time.Second+to {
 				fail("timeout", "timeout-late", "%s: idle timeout %v, the serving call returned only after %v", what, to, time.Since(t0))
 			}
-		case <-time.After(20 * time.Second):
+		} else {
 			fail("timeout", "timeout-never-fired", "%s: idle timeout %v, nobody connected, the serving call has not returned after 20 s", what, to)
 			// (a listener that ignores its deadline may not be closable either: whatever
 			// happens now, this process is finished)
@@ -157,7 +175,10 @@ func iRun(h iHistory, dir string) (viol []iViolation) {
 				fail("must-serve", "connect-failed", "%v after the start of serving (timeout %v): %v", time.Since(started), to, err)
 			}
 			svc.Shutdown()
-			<-done
+			if !waitDone(20 * time.Second) {
+				fail("returns", "serving-call-did-not-return-after-shutdown", "after 20 s")
+				iHung = true
+			}
 			return
 		}
 		connectedAfter := time.Since(started)
